@@ -44,8 +44,8 @@ func c02RecorderDoer(e *c02Env) c02Doer {
 		}
 		req := httptest.NewRequest(run.route.Method, run.route.Path, body)
 		req.Header.Set(c02RunHeader, run.id)
-		if opt.upgrade {
-			req.Header.Set("Upgrade", "websocket")
+		if opt.upgrade != "" {
+			req.Header.Set("Upgrade", opt.upgrade)
 		}
 		if opt.ctx != nil {
 			req = req.WithContext(opt.ctx)
@@ -70,6 +70,7 @@ type c02BatchCfg struct {
 	ShortBy   string `json:"short_by"`
 	FastBy    string `json:"fast_by"`
 	MaxConns  int    `json:"max_conns"`
+	Verbose   bool   `json:"verbose"`
 	MaxBytes  int64  `json:"max_bytes"`
 	BytesBy   string `json:"bytes_by"`
 	CfgBytes  int64  `json:"config_max_bytes"`
@@ -113,7 +114,8 @@ func c02RunBatch(m *vk.M, b int, racing bool) {
 	} else {
 		bc.BytesBy, bc.CfgBytes, bytesOpt = "route", []int64{0, -1, bc.MaxBytes + 5000}[r.Intn(3)], bc.MaxBytes
 	}
-	cfg := Config{Timeout: bc.CfgMs, MaxConns: bc.MaxConns, MaxBytes: bc.CfgBytes}
+	bc.Verbose = b%2 == 1 // DetailedLogHandler (tees the body) instead of LogHandler
+	cfg := Config{Timeout: bc.CfgMs, MaxConns: bc.MaxConns, MaxBytes: bc.CfgBytes, Verbose: bc.Verbose}
 	groups := []c02Group{
 		{Class: "fast", Method: http.MethodGet, N: bc.NFast, Timeout: fastOpt},
 		{Class: "short", Method: http.MethodGet, N: bc.NShort, Timeout: shortOpt},
@@ -190,6 +192,8 @@ func c02RunBatch(m *vk.M, b int, racing bool) {
 				switch x := r.Intn(10); {
 				case racing && x < 6:
 					ok = c02ScRacing(c, e, do, rt, c02GenRacing(r, rt.Timeout))
+				case x < 8 && k == 1: // ordinary requests that merely carry a non-websocket Upgrade header
+					ok, _ = c02ScLate(c, e, do, rt, c02GenLate(r), c02ReqOpt{upgrade: []string{"h2c", "c02-junk", "TLS/1.0"}[r.Intn(3)]})
 				case x < 8:
 					ok, _ = c02ScLate(c, e, do, rt, c02GenLate(r))
 				default:
@@ -218,7 +222,7 @@ func c02RunBatch(m *vk.M, b int, racing bool) {
 		}
 		rt := e.routes["gauge"][1]
 		for k := 0; k < 4; k++ {
-			if !c02ScFastOpt(c, e, do, rt, c02GenFast(r, false), "upgrade", c02ReqOpt{upgrade: true}) {
+			if !c02ScFastOpt(c, e, do, rt, c02GenFast(r, false), "upgrade", c02ReqOpt{upgrade: "websocket"}) {
 				return
 			}
 		}
